@@ -162,3 +162,102 @@ def short(v, n=24):
     if isinstance(v, (bytes, bytearray)): return v.hex()[:2 * n] + ('..(%d B)' % len(v) if len(v) > n else '')
     if isinstance(v, dict) and 'tmpl' in v: return {('0x%x' % t): short(b, 8) for t, b in v['tmpl'].items()}
     return v
+
+# ---------------------------------------------------------------- object generator shared by C05 / C06
+import random
+P256 = bytes.fromhex('06082a8648ce3d030107'); P384 = bytes.fromhex('06052b81040022'); ED25519 = bytes.fromhex('06032b6570')
+OAKLEY2 = bytes.fromhex('FFFFFFFFFFFFFFFFC90FDAA22168C234C4C6628B80DC1CD129024E088A67CC74020BBEA63B139B22514A08798E3404DDEF9519B3CD3A431B302B0A6DF25F14374FE1356D6D51C245E485B576625E7EC6F44C42E9A637ED6B0BFF5CB6F406B7EDEE386BFB5A899FA5AE9F24117C4B1FE649286651ECE65381FFFFFFFFFFFFFFFF')
+DATE_ATTRS = ('CKA_START_DATE', 'CKA_END_DATE')
+KEY_BOOLS_SECRET = ['CKA_ENCRYPT', 'CKA_DECRYPT', 'CKA_SIGN', 'CKA_VERIFY', 'CKA_WRAP', 'CKA_UNWRAP', 'CKA_DERIVE']
+KEY_BOOLS_PUB = ['CKA_ENCRYPT', 'CKA_VERIFY', 'CKA_VERIFY_RECOVER', 'CKA_WRAP', 'CKA_DERIVE']
+KEY_BOOLS_PRIV = ['CKA_DECRYPT', 'CKA_SIGN', 'CKA_SIGN_RECOVER', 'CKA_UNWRAP', 'CKA_DERIVE']
+STORAGE_BOOLS = ['CKA_MODIFIABLE', 'CKA_COPYABLE', 'CKA_DESTROYABLE']
+# class name -> fixed head, free byte-string attributes (name, fixed lengths or None), required ones, booleans, ulongs (name, choices), extras
+def class_table(ck):
+    K = lambda n: ck['CKK_' + n]
+    sec = lambda kt, lens: dict(head=[('CKA_CLASS', ck.CKO_SECRET_KEY), ('CKA_KEY_TYPE', K(kt)), ('CKA_SENSITIVE', False), ('CKA_EXTRACTABLE', True)], req=[('CKA_VALUE', lens)], opt=[('CKA_ID', None)],
+                                bools=KEY_BOOLS_SECRET, ulongs=[], dates=True, mechs=True, tmpls=['CKA_WRAP_TEMPLATE', 'CKA_UNWRAP_TEMPLATE'], default_private=True)
+    pub = lambda kt, req: dict(head=[('CKA_CLASS', ck.CKO_PUBLIC_KEY), ('CKA_KEY_TYPE', K(kt))], req=req, opt=[('CKA_ID', None), ('CKA_SUBJECT', None)], bools=KEY_BOOLS_PUB, ulongs=[], dates=True, mechs=True,
+                               tmpls=['CKA_WRAP_TEMPLATE'], default_private=False)
+    prv = lambda kt, req: dict(head=[('CKA_CLASS', ck.CKO_PRIVATE_KEY), ('CKA_KEY_TYPE', K(kt)), ('CKA_SENSITIVE', False), ('CKA_EXTRACTABLE', True)], req=req, opt=[('CKA_ID', None), ('CKA_SUBJECT', None)],
+                               bools=KEY_BOOLS_PRIV, ulongs=[], dates=True, mechs=True, tmpls=['CKA_UNWRAP_TEMPLATE'], default_private=True)
+    rsa_priv = [('CKA_MODULUS', None), ('CKA_PUBLIC_EXPONENT', None), ('CKA_PRIVATE_EXPONENT', None), ('CKA_PRIME_1', None), ('CKA_PRIME_2', None), ('CKA_EXPONENT_1', None), ('CKA_EXPONENT_2', None), ('CKA_COEFFICIENT', None)]
+    return {
+        'data': dict(head=[('CKA_CLASS', ck.CKO_DATA)], req=[], opt=[('CKA_APPLICATION', None), ('CKA_OBJECT_ID', None), ('CKA_VALUE', None)], bools=[], ulongs=[], dates=False, mechs=False, tmpls=[], default_private=True),
+        'cert-x509': dict(head=[('CKA_CLASS', ck.CKO_CERTIFICATE), ('CKA_CERTIFICATE_TYPE', ck.CKC_X_509)], req=[('CKA_SUBJECT', None), ('CKA_VALUE', None)],
+                          opt=[('CKA_ID', None), ('CKA_ISSUER', None), ('CKA_SERIAL_NUMBER', None), ('CKA_HASH_OF_SUBJECT_PUBLIC_KEY', None), ('CKA_HASH_OF_ISSUER_PUBLIC_KEY', None)], bools=[],
+                          ulongs=[('CKA_CERTIFICATE_CATEGORY', (0, 1, 2, 3)), ('CKA_JAVA_MIDP_SECURITY_DOMAIN', (0, 1, 2, 3)), ('CKA_NAME_HASH_ALGORITHM', (ck.CKM_SHA_1, ck.CKM_SHA256))], dates=True, mechs=False, tmpls=[], default_private=False),
+        'cert-pgp': dict(head=[('CKA_CLASS', ck.CKO_CERTIFICATE), ('CKA_CERTIFICATE_TYPE', ck.CKC_OPENPGP)], req=[('CKA_SUBJECT', None), ('CKA_VALUE', None)], opt=[('CKA_ID', None), ('CKA_ISSUER', None), ('CKA_SERIAL_NUMBER', None)],
+                         bools=[], ulongs=[('CKA_CERTIFICATE_CATEGORY', (0, 1, 2, 3))], dates=True, mechs=False, tmpls=[], default_private=False),
+        'sk-aes': sec('AES', (16, 24, 32)), 'sk-des3': sec('DES3', (24,)), 'sk-des2': sec('DES2', (16,)), 'sk-generic': sec('GENERIC_SECRET', None), 'sk-hmac': sec('SHA256_HMAC', None),
+        'pub-rsa': pub('RSA', [('CKA_MODULUS', None), ('CKA_PUBLIC_EXPONENT', None)]), 'pub-dsa': pub('DSA', [('CKA_PRIME', None), ('CKA_SUBPRIME', None), ('CKA_BASE', None), ('CKA_VALUE', None)]),
+        'pub-ec': pub('EC', [('CKA_EC_PARAMS', None), ('CKA_EC_POINT', None)]), 'pub-dh': pub('DH', [('CKA_PRIME', None), ('CKA_BASE', None), ('CKA_VALUE', None)]), 'pub-ed': pub('EC_EDWARDS', [('CKA_EC_PARAMS', None), ('CKA_EC_POINT', None)]),
+        'priv-rsa': prv('RSA', rsa_priv), 'priv-dsa': prv('DSA', [('CKA_PRIME', None), ('CKA_SUBPRIME', None), ('CKA_BASE', None), ('CKA_VALUE', None)]), 'priv-ec': prv('EC', [('CKA_EC_PARAMS', None), ('CKA_VALUE', None)]),
+        'priv-dh': prv('DH', [('CKA_PRIME', None), ('CKA_BASE', None), ('CKA_VALUE', None)]), 'priv-ed': prv('EC_EDWARDS', [('CKA_EC_PARAMS', None), ('CKA_VALUE', None)]),
+        'dom-dsa': dict(head=[('CKA_CLASS', ck.CKO_DOMAIN_PARAMETERS), ('CKA_KEY_TYPE', K('DSA'))], req=[('CKA_PRIME', None), ('CKA_SUBPRIME', None), ('CKA_BASE', None)], opt=[], bools=[], ulongs=[], dates=False, mechs=False, tmpls=[], default_private=True),
+        'dom-dh': dict(head=[('CKA_CLASS', ck.CKO_DOMAIN_PARAMETERS), ('CKA_KEY_TYPE', K('DH'))], req=[('CKA_PRIME', None), ('CKA_BASE', None)], opt=[], bools=[], ulongs=[], dates=False, mechs=False, tmpls=[], default_private=True),
+    }
+
+def rand_date(rnd):
+    """a valid CK_DATE drawn from a large space (~3.3 million values)"""
+    return b'%04d%02d%02d' % (rnd.randrange(1000, 9999), rnd.randrange(1, 13), rnd.randrange(1, 29))
+
+def size_class(n): return '0' if n == 0 else '1' if n == 1 else '<=64' if n <= 64 else '<=4K' if n <= 4096 else '<=64K' if n <= 65536 else '>64K'
+
+class ObjGen:
+    """random object templates.  sizes: callable(rnd) -> length for free-length byte strings; fresh(n) -> n fresh random bytes"""
+    def __init__(s, ck, rnd, sizes, minlen=0, recorder=None):
+        s.ck = ck; s.rnd = rnd; s.sizes = sizes; s.minlen = minlen; s.table = class_table(ck); s.recorder = recorder
+        s.mech_pool = [ck.CKM_AES_CBC, ck.CKM_AES_ECB, ck.CKM_AES_GCM, ck.CKM_AES_KEY_WRAP, ck.CKM_RSA_PKCS, ck.CKM_SHA256_RSA_PKCS, ck.CKM_ECDSA, ck.CKM_SHA256_HMAC, ck.CKM_DES3_CBC, ck.CKM_AES_CMAC, 0x80000001]
+    def fresh(s, n): return bytes(s.rnd.getrandbits(8) for _ in range(n)) if n < 64 else s.rnd.getrandbits(8 * n).to_bytes(n, 'big')
+    def bstr(s, lens=None):
+        n = s.rnd.choice(lens) if lens else max(s.minlen, s.sizes(s.rnd)); return s.fresh(n)
+    def nested(s):
+        ck = s.ck; pool = [('CKA_CLASS', ck.CKO_SECRET_KEY), ('CKA_KEY_TYPE', ck.CKK_AES), ('CKA_TOKEN', s.rnd.random() < .5), ('CKA_EXTRACTABLE', s.rnd.random() < .5), ('CKA_SENSITIVE', s.rnd.random() < .5),
+                           ('CKA_VALUE_LEN', s.rnd.choice((16, 32))), ('CKA_LABEL', s.fresh(s.rnd.choice((0, 1, 20, 300)))), ('CKA_ID', s.fresh(s.rnd.choice((0, 5)))), ('CKA_ENCRYPT', True), ('CKA_MODULUS_BITS', 2048)]
+        return s.rnd.sample(pool, s.rnd.randrange(0, 6))
+    def template(s, cls, token, private, tag, rich=True):
+        """-> [(name, python value)]; the label carries the tag (tag|suffix)"""
+        c = s.table[cls]; rnd = s.rnd; t = list(c['head']) + [('CKA_TOKEN', token), ('CKA_PRIVATE', private), ('CKA_LABEL', tag + b'|' + s.fresh(rnd.choice((0, 3, 16, 40)) if s.minlen == 0 else 16))]
+        for a, lens in c['req']: t.append((a, s.bstr(lens)))
+        for a, lens in c['opt']:
+            if rnd.random() < (.7 if rich else .3): t.append((a, s.bstr(lens)))
+        for a in c['bools'] + STORAGE_BOOLS:
+            if rnd.random() < (.35 if rich else .1): t.append((a, rnd.random() < .5))
+        for a, ch in c['ulongs']:
+            if rnd.random() < .5: t.append((a, rnd.choice(ch)))
+        if c['dates']:
+            for a in DATE_ATTRS:
+                if rnd.random() < .5: t.append((a, rand_date(rnd) if rnd.random() < .85 else b''))
+        if c['mechs'] and rnd.random() < .5: t.append(('CKA_ALLOWED_MECHANISMS', rnd.sample(s.mech_pool, rnd.randrange(1, 6))))
+        for a in c['tmpls']:
+            if rnd.random() < .4: t.append((a, s.nested()))
+        head = t[:len(c['head'])]; rest = t[len(c['head']):]; rnd.shuffle(rest)
+        return (head + rest)[:32]
+    def settable(s, cls):
+        """candidate (attribute, value) changes for C_SetAttributeValue; refusals are expected for some"""
+        c = s.table[cls]; rnd = s.rnd; cand = []
+        for a, lens in c['opt'] + [('CKA_ISSUER', None), ('CKA_SERIAL_NUMBER', None)] * (cls.startswith('cert')) + ([('CKA_VALUE', None)] if cls == 'data' else []): cand.append((a, s.bstr(lens)))
+        for a in c['bools']: cand.append((a, rnd.random() < .5))
+        if c['dates']: cand += [(a, rand_date(rnd)) for a in DATE_ATTRS]
+        if c['mechs']: cand.append(('CKA_ALLOWED_MECHANISMS', rnd.sample(s.mech_pool, rnd.randrange(1, 6))))
+        for a in c['tmpls']: cand.append((a, s.nested()))
+        return cand
+
+def template_api_form(ck, tmpl):
+    """what a template promises: {name: API-form value}"""
+    out = {}
+    for a, v in tmpl:
+        if isinstance(v, bool): out[a] = b'\x01' if v else b'\x00'
+        elif isinstance(v, int): out[a] = struct.pack('<Q', v)
+        elif isinstance(v, (bytes, bytearray)): out[a] = bytes(v)
+        elif isinstance(v, list) and a not in TEMPLATE_ATTRS and (not v or isinstance(v[0], int)): out[a] = b''.join(struct.pack('<Q', m) for m in sorted(set(v)))
+        elif isinstance(v, list): out[a] = {'tmpl': {ck[n]: template_api_form(ck, [(n, e)])[n] for n, e in v}}
+        else: raise TypeError(v)
+    return out
+
+def attr_kind(name, v):
+    if isinstance(v, dict): return 'template'
+    if name in DATE_ATTRS: return 'date'
+    if name == 'CKA_ALLOWED_MECHANISMS': return 'mechset'
+    return None
